@@ -26,8 +26,10 @@ Not value-parametric, hence NOT in the catalogue (covered elsewhere or not at al
 sum/average/min/max (arithmetic / ordering on elements), to_marbles (stringifies the
 elements), find / default_if_empty() / first_or_default() without an explicit default
 (their literal None result is ambiguous by design; C05), expand / repeat / retry /
-while_do / do_while (re-subscription loops over hot sources), to_future / from_future
-/ start / to_async (asyncio, threads), slice/take/skip/element_at (index only; C05/C07).
+while_do / do_while (re-subscription loops over hot sources), the asyncio forms of to_future /
+from_future and start / to_async on their default (timer-thread) scheduler -- their synchronous forms
+(concurrent.futures.Future, ImmediateScheduler) and run() ARE in the catalogue --, take/skip/element_at
+(index only; C05/C07; slice is in the catalogue because one of its paths wraps and unwraps the elements).
 """
 from __future__ import annotations
 
@@ -158,6 +160,23 @@ class Box:
 
 def BOX(x, V):
     return ["box", E(x.a, V), E(x.b, V)] if type(x) is Box else _foreign("not-a-box", x)
+
+
+class FutState:
+    """what a probe saw of a future: pending | cancelled | exception e | result v"""
+
+    def __init__(self, kind, payload=None):
+        self.kind, self.payload = kind, payload
+
+
+def FUT(x, V):
+    if type(x) is not FutState:
+        return _foreign("not-a-future-state", x)
+    if x.kind == "exception":
+        return ["future-exception", err(x.payload)]
+    if x.kind == "result":
+        return ["future-result", E(x.payload, V)]
+    return ["future-" + x.kind]
 
 
 def err(e):
@@ -421,6 +440,61 @@ def catalogue():
                                           ops.skip_while(lambda v: c.ident(v) == stop),
                                           ops.filter(lambda v: c.ident(v) != stop)][k])(
             c.choice([0, 1, 2], "which"), c.choice(list(range(c.V.K)), "stop-id"))))
+
+    # ---- slicing: a negative start with a positive stop wraps every element as (index, x) and unwraps it ----
+    reg("slice(negative start, positive stop)", 1, "all", E,
+        piped(lambda c: ops.slice(c.choice([-1, -2, -3, -4], "start"), c.choice([1, 2, 3, 4], "stop"))), weight=2)
+    reg("source[-2:3]", 1, "all", E, lambda c: c.src[0][-2:3])
+    reg("slice(mixed signs, step)", 1, "all", E,
+        piped(lambda c: ops.slice(c.choice([None, -3, -1, 0, 1], "start"), c.choice([None, -1, 2, 4], "stop"),
+                                  c.choice([None, 1, 2], "step"))), weight=2)
+
+    # ---- bridges that hold "the last value" (synchronous forms only: no event loop) ---------------
+    def fut_state(fut):
+        def thunk():
+            if not fut.done():
+                return FutState("pending")
+            if fut.cancelled():
+                return FutState("cancelled")
+            ex = fut.exception()
+            return FutState("exception", ex) if ex is not None else FutState("result", fut.result())
+        return thunk
+
+    def to_future_(c):
+        import concurrent.futures
+        # subscribes source 0 right here; the future is completed by the script's on_completed / on_error
+        fut = c.src[0].pipe(ops.to_future(concurrent.futures.Future))
+        c.probes.append(("to_future(...) state", FUT, fut_state(fut)))
+        return rx.from_future(fut)
+    reg("to_future(concurrent Future)+from_future", 1, "all", E, to_future_, late=True, weight=4)
+
+    def from_future_done(c):
+        import concurrent.futures
+        fut = concurrent.futures.Future()
+        fut.set_result(c.pick("result"))
+        return rx.from_future(fut)
+    reg("rx.from_future(completed future)", 0, "all", E, from_future_done, late=True, weight=2)
+
+    def run_(c):
+        from reactivex.scheduler import ImmediateScheduler, CurrentThreadScheduler
+        vals = c.picks(c.choice([1, 2, 3], "count"), "value")
+        how = c.choice(["default", "immediate", "current_thread"], "scheduler")
+
+        def supplier():
+            src = rx.of(*vals)
+            if how == "default":           # NewThreadScheduler: run() blocks on a latch until the source is done
+                return src.run()
+            return src.run(ImmediateScheduler() if how == "immediate" else CurrentThreadScheduler())
+        return rx.from_callable(supplier)
+    reg("rx.of(...).run()", 0, "all", E, run_, weight=3)
+
+    def start_(c):
+        from reactivex.scheduler import ImmediateScheduler
+        v = c.pick("result")
+        if c.choice([0, 1], "via to_async"):
+            return rx.defer(lambda s: rx.to_async(lambda: v, ImmediateScheduler())())
+        return rx.defer(lambda s: rx.start(lambda: v, ImmediateScheduler()))
+    reg("rx.start / rx.to_async(falsy result)", 0, "all", E, start_, late=True, weight=2)
 
     # ---- creation (no hot source; the values are the parameters) -----------------------------
     reg("rx.of", 0, "all", E, lambda c: rx.of(*c.picks(c.choice([1, 2, 3, 4]), "value")))
